@@ -284,7 +284,7 @@ def _interpret(res, text, c):
         ob = dict(id="verus:%s:%s" % (res.unit, r.id), kind="fn", mode=r.mode, rec=r, msgs=per_rec[r.id], ms=None, rlimit=None)
         if r.mode == "demoted":
             ob["status"] = "undecided"
-            ob["msgs"] = [dict(message="spliced text rejected by the Verus front end (lost hint anchor / unsupported construct): " + res.demoted.get(r.id, ""), rendered="")]
+            ob["msgs"] = [dict(message="function could not be brought to the verifier after the edit (lost hint anchor / unsupported construct): " + (getattr(r, "demote_reason", "") or res.demoted.get(r.id, "")), rendered="")]
             res.obligations.append(ob)
             continue
         if r.mode != "prove":
